@@ -6,6 +6,7 @@ import (
 	"math/rand/v2"
 	"net/netip"
 	"strings"
+	"time"
 
 	"verifharness/codec"
 	"verifharness/oracle"
@@ -25,7 +26,7 @@ func (c11) ID() string     { return "C11" }
 func (c11) Level() string  { return "exploration" }
 func (c11) QuickRuns() int { return 60000 }
 func (c11) Rule() string {
-	return "2-8 concurrent protocol-level runs of mixed protocols to the same or different targets, and RunTraceroute requests with 1-4 runs plus 0-6 (occasionally 50) end-to-end probes, all on one simulated wire where every capture handle sees every inbound packet (and, per knob, every outgoing probe); every flow has its own router addresses so cross-talk is visible; SACK runs may share one target address:port with SYN-ACKs delayed until every handle is open (overlapping handshakes), and the simulated target answers probes outside its connection's window with a bare ACK; IP-ID and echo-id allocators start at seeded bases near their wrap points; each run must equal the reference fold of its own genuine replies, and identifiers of simultaneously live runs must be disjoint; non-trivial = at least two endpoints were live at the same time and one of them read a packet caused by another; distinct = distinct shapes"
+	return "2-8 concurrent protocol-level runs of mixed protocols to the same or different targets, 2-4 runs of one variant that follow each other in the process towards one target and port (late replies of a run arrive while the next one listens), and RunTraceroute requests with 1-4 runs plus 0-6 (occasionally 50) end-to-end probes, all on one simulated wire where every capture handle sees every inbound packet (and, per knob, every outgoing probe); every flow has its own router addresses so cross-talk is visible; SACK runs may share one target address:port with SYN-ACKs delayed until every handle is open (overlapping handshakes), and the simulated target answers probes outside its connection's window with a bare ACK; IP-ID and echo-id allocators start at seeded bases near their wrap points; each run must equal the reference fold of its own genuine replies, and identifiers of simultaneously live runs must be disjoint; non-trivial = at least two endpoints were live at the same time and one of them read a packet caused by another; distinct = distinct shapes"
 }
 func (c11) Assumptions() []string {
 	return []string{"UDP and TCP SYN run with strict quoted-source checking (relaxed mode cannot tell apart flows that differ only in their source, by its definition)", "SACK targets are distinct loopback listeners; their ISNs are at least 2^20 apart, as kernel ISNs are"}
@@ -41,6 +42,9 @@ func (c11) Gen(rng *rand.Rand, tier string, i int) *sim.Scenario {
 		sc.Knobs.CaptureOutgoing = chance(rng, 0.5)
 		applyWrapBases(rng, sc)
 		return sc
+	}
+	if i%10 == 6 {
+		return genSequentialRuns(rng)
 	}
 	n := between(rng, 2, 8)
 	if tier == "thorough" && chance(rng, 0.2) {
@@ -113,6 +117,59 @@ func (c11) Gen(rng *rand.Rand, tier string, i int) *sim.Scenario {
 	return sc
 }
 
+// genSequentialRuns draws 2-4 runs of one variant towards one target and port that follow each other
+// in one process: replies to a run's probes that are late for it arrive while the next run is
+// listening (stale traffic of the same tool), and whatever state a run leaves behind in the process
+// (allocators, package-level tables) is what the next run starts from.
+func genSequentialRuns(rng *rand.Rand) *sim.Scenario {
+	v := pick(rng, Variant{Entry: "icmp"}, Variant{Entry: "icmp", V6: true}, Variant{Entry: "udp"}, Variant{Entry: "udp", Loosen: true}, Variant{Entry: "udp", V6: true}, Variant{Entry: "udp", V6: true, Loosen: true}, Variant{Entry: "tcp"}, Variant{Entry: "tcp", Paris: true})
+	n := between(rng, 2, 4)
+	var runs []*wireRun
+	start := int64(0)
+	port := pick(rng, 33434, 443, between(rng, 1024, 65535))
+	for k := 0; k < n; k++ {
+		o := &wireOpts{variants: []Variant{v}, silentProb: 0.25, noDest: 0.2, wellTimed: true, overtake: true, lateProb: 0.3}
+		wr := genWireRun(rng, o, k, fmt.Sprintf("c%d", k))
+		c := &wr.call
+		old := c.Target
+		c.Target = v.target(0)
+		for hi := range wr.flow.Hops {
+			if wr.flow.Hops[hi].From == old {
+				wr.flow.Hops[hi].From = c.Target
+			}
+		}
+		if v.Entry != "icmp" {
+			c.Port = port
+		}
+		if c.MaxTTL-c.MinTTL > 5 {
+			c.MaxTTL = c.MinTTL + 5
+		}
+		if c.TimeoutMs > 500 {
+			c.TimeoutMs = 500
+		}
+		if v.Entry == "tcp" {
+			lim := int64(c.TimeoutMs-100)*1000 - 1000
+			for hi := range wr.flow.Hops {
+				for ri := range wr.flow.Hops[hi].Replies {
+					r := &wr.flow.Hops[hi].Replies[ri]
+					if r.DelayUs > lim && r.DelayUs < int64(c.TimeoutMs)*1000 {
+						r.DelayUs = int64(between(rng, 50, int(lim)))
+					}
+					r.Dup = 0
+				}
+			}
+		}
+		c.StartUs = start
+		start += int64(runBound(v.Entry, c, c.MaxTTL-c.MinTTL+1, false)/time.Microsecond) + int64(between(rng, 0, 20000))
+		runs = append(runs, wr)
+	}
+	sc := scenarioFor("C11", rng, runs)
+	sc.Note = "family=sequential"
+	applyWrapBases(rng, sc)
+	sc.Tape = tape(rng, 64)
+	return sc
+}
+
 func (c11) Check(out *sim.Outcome, ri *RunInfo) []Violation {
 	vs := crashViolations(out)
 	ri.Shape = shapeOf(out.Sc)
@@ -128,6 +185,18 @@ func (c11) Check(out *sim.Outcome, ri *RunInfo) []Violation {
 						ri.probe("foreign-outgoing-probe-read")
 					}
 					break
+				}
+			}
+		}
+	}
+	if noteField(out.Sc.Note, "family") == "sequential" {
+		ri.probe("sequential-runs")
+		for _, v := range vws {
+			for _, rd := range v.Ep.Reads {
+				if rd.Pkt >= 0 {
+					if o := out.W.Pkts[rd.Pkt].Origin; o.Flow != "" && o.Flow < v.Ep.Actor && !o.Own {
+						ri.probe("stale-reply-of-earlier-run-read")
+					}
 				}
 			}
 		}
